@@ -751,6 +751,22 @@ impl Store {
         value: ValueEntry,
         force: bool,
     ) -> StoreResult<(bool, Option<Vec<AffectedLsSubscribers>>)> {
+        if !force {
+            // refuse before touching the tree, so a rejected write does not leave empty branches behind
+            match (self.get_node(path).and_then(Node::value), &value) {
+                (None | Some(ValueEntry::Plain(_)), ValueEntry::Cas(_, v)) if *v != 0 => {
+                    return Err(StoreError::CasVersionMismatch);
+                }
+                (Some(ValueEntry::Cas(_, _)), ValueEntry::Plain(_)) => {
+                    return Err(StoreError::Cas);
+                }
+                (Some(ValueEntry::Cas(_, v_curr)), ValueEntry::Cas(_, v)) if v_curr != v => {
+                    return Err(StoreError::CasVersionMismatch);
+                }
+                _ => {}
+            }
+        }
+
         let mut ls_subscribers: Option<Vec<(Vec<LsSubscriber>, &[String])>> = None;
         let mut current_node = &mut self.data;
         let mut current_subscribers = Some(&self.subscribers);
